@@ -99,7 +99,11 @@ def run_tlc(module, cfg, name, workers=8, timeout=900, env=None, simulate=None,
     Raises ToolError on timeouts, parse errors or evaluation errors that are not
     invariant violations."""
     meta = workdir("tlc_" + name)
-    jopts = "-Xss1g"
+    # (TLC unpacks its standard modules into a fresh directory below java.io.tmpdir at every start and leaves it there:
+    # kept inside the run's own metadata directory, which is wiped at the next run)
+    tmpd = os.path.join(meta, "jtmp")
+    os.makedirs(tmpd, exist_ok=True)
+    jopts = "-Xss1g -Djava.io.tmpdir=" + tmpd
     if depth_first:
         jopts += " -Dtlc2.tool.queue.IStateQueue=StateDeque"
     e = dict(os.environ)
@@ -443,7 +447,8 @@ def validate_trace(run, module, cfg, name, trace_path, timeout=900, key=None, li
     nlines = sum(1 for _ in open(trace_path))
     meta = workdir("tlc_" + name)
     e = dict(os.environ)
-    e["JAVA_TOOL_OPTIONS"] = "-Xss1g -Dtlc2.tool.queue.IStateQueue=StateDeque"
+    os.makedirs(os.path.join(meta, "jtmp"), exist_ok=True)
+    e["JAVA_TOOL_OPTIONS"] = "-Xss1g -Dtlc2.tool.queue.IStateQueue=StateDeque -Djava.io.tmpdir=" + os.path.join(meta, "jtmp")
     e["TRACE"] = trace_path
     cmd = ["timeout", str(timeout), "java", "-XX:+UseParallelGC", "-Xmx4g", "-cp", TLA_CP, "tlc2.TLC",
            "-workers", "1", "-metadir", meta, "-cleanup", "-noGenerateSpecTE", "-config", cfg, module + ".tla"]
